@@ -10,7 +10,6 @@ pub struct PhaseAccumulator<const TOTAL_NUM_BITS: u32, const NUM_INDEX_BITS: u32
     sample_rate_hz: f32,
     rollover_mask: u32,
     accumulator: u32,
-    last_accumulator: u32,
     increment: u32,
     rolled_over: bool,
 }
@@ -24,7 +23,6 @@ impl<const TOTAL_NUM_BITS: u32, const NUM_INDEX_BITS: u32>
             sample_rate_hz,
             rollover_mask: (1 << TOTAL_NUM_BITS) - 1,
             accumulator: 0,
-            last_accumulator: 0,
             increment: 0,
             rolled_over: false,
         }
@@ -32,14 +30,15 @@ impl<const TOTAL_NUM_BITS: u32, const NUM_INDEX_BITS: u32>
 
     /// `pa.tick()` advances the phase accumulator by 1 tick, expected to be called at the sample rate
     pub fn tick(&mut self) {
-        self.accumulator += self.increment;
-        self.accumulator &= self.rollover_mask;
+        let sum = self.accumulator as u64 + self.increment as u64;
 
-        if self.accumulator < self.last_accumulator {
+        // a carry out of the accumulator bits means we rolled over, note that comparing the masked accumulator
+        // with its last value would miss increments which are whole multiples of the accumulator range
+        if (self.rollover_mask as u64) < sum {
             self.rolled_over = true;
         }
 
-        self.last_accumulator = self.accumulator
+        self.accumulator = (sum & self.rollover_mask as u64) as u32;
     }
 
     /// `pa.set_frequency(f)` sets the frequency of the phase accumulator to frequency `f`
@@ -104,7 +103,6 @@ impl<const TOTAL_NUM_BITS: u32, const NUM_INDEX_BITS: u32>
     /// `pa.reset()` resets the phase accumulator to zero
     pub fn reset(&mut self) {
         self.accumulator = 0;
-        self.last_accumulator = 0;
         self.rolled_over = false;
     }
 }
